@@ -6,9 +6,7 @@ import Nject.Spec
 -/
 namespace Nject
 
-def allDistinct : List Nat → Bool
-  | [] => true
-  | x :: xs => !xs.contains x && allDistinct xs
+def allDistinct (l : List Nat) : Bool := decide l.Nodup
 
 /-- every return type of the nodes at or below -/
 def upTypes (fin : Node) : List Node → List Ty
@@ -17,36 +15,37 @@ def upTypes (fin : Node) : List Node → List Ty
 
 def hasSlot (m : List (Ty × Nat)) (t : Ty) : Bool := (m.lookup t).isSome
 
-/-- zero lists of wrappers cover every slotted up-type written at or below them -/
-def zeroCover (umap : List (Ty × Nat)) (fin : Node) : List Node → Bool
-  | [] => true
+/-- per-node hypotheses of the refinement theorem, in list order:
+    reads have slots; a fallible injector returns `error`; a wrapper's zero list covers every
+    slotted up-type written at or below it. -/
+def wfRun (m : Maps) (errTy : Ty) (fin : Node) : List Node → Bool
+  | [] => fin.ins.all (fun t => (m.d t).isSome)
   | n :: rest =>
-    (n.kind != .wrapper ||
-      (upTypes fin (n :: rest)).all (fun t => !hasSlot umap t || n.zero.contains t))
-    && zeroCover umap fin rest
-
-def runReadsOk (c : Compiled) : Bool :=
-  c.run.all (fun n => n.ins.all (hasSlot c.dmap) && n.recv.all (hasSlot c.umap))
-  && c.fin.ins.all (hasSlot c.dmap)
-  && c.invokeRecv.all (hasSlot c.umap)
+    n.ins.all (fun t => (m.d t).isSome) && n.recv.all (fun t => (m.u t).isSome)
+    && (n.kind != .fallible || n.rets.contains errTy)
+    && (n.kind != .wrapper ||
+        (upTypes fin (n :: rest)).all (fun t => !(m.u t).isSome || n.zero.contains t))
+    && wfRun m errTy fin rest
 
 /-- a fallible node's error slot exists -/
 def errSlotOk (c : Compiled) : Bool :=
   c.run.all (fun n => n.kind != .fallible || hasSlot c.umap c.errTy)
 
-def staticZeroOk (dmap : List (Ty × Nat)) : List SNode → Bool
+/-- hypotheses on the static part: reads have slots; a fallible static injector's zero list is, on
+    slotted types, exactly what later static injectors output -/
+def wfStatic (d : Ty → Option Nat) : List SNode → Bool
   | [] => true
   | n :: rest =>
-    (!n.fallible ||
-      ((laterOuts rest).all (fun t => !hasSlot dmap t || n.zero.contains t)
-       && n.zero.all (fun t => !hasSlot dmap t || (laterOuts rest).contains t)))
-    && staticZeroOk dmap rest
+    n.ins.all (fun t => (d t).isSome)
+    && (!n.fallible ||
+        ((laterOuts rest).all (fun t => !(d t).isSome || n.zero.contains t)
+         && n.zero.all (fun t => !(d t).isSome || (laterOuts rest).contains t)))
+    && wfStatic d rest
 
-def staticReadsOk (c : Compiled) : Bool :=
-  c.statics.all (fun n => n.ins.all (hasSlot c.dmap))
-  && (match c.init with
-      | none => true
-      | some sig => sig.bypass.all (hasSlot c.dmap))
+def initOk (c : Compiled) : Bool :=
+  match c.init with
+  | none => true
+  | some sig => sig.bypass.all (fun t => (c.maps.d t).isSome)
 
 def slotsOk (c : Compiled) : Bool :=
   let ds := c.dmap.map (·.2)
@@ -57,11 +56,11 @@ def slotsOk (c : Compiled) : Bool :=
 /-- `none` = well-formed; otherwise the name of the first clause that fails -/
 def checkWF (c : Compiled) : Option String :=
   if !slotsOk c then some "slots"
-  else if !runReadsOk c then some "run-reads"
+  else if !wfRun c.maps c.errTy c.fin c.run then some "run-wf"
+  else if !c.invokeRecv.all (fun t => (c.maps.u t).isSome) then some "invoke-recv"
   else if !errSlotOk c then some "err-slot"
-  else if !zeroCover c.umap c.fin c.run then some "zero-cover"
-  else if !staticReadsOk c then some "static-reads"
-  else if !staticZeroOk c.dmap c.statics then some "static-zero"
+  else if !wfStatic c.maps.d c.statics then some "static-wf"
+  else if !initOk c then some "init-bypass"
   else none
 
 /-! ### supply: every read type has a writer upstream (C01 "never a zero value") -/
